@@ -634,10 +634,14 @@ def oracle(case, obs):
                                           (level is not None and ties and all(list(t) == sorted(level) for t in ties))):
                 return []
         m0, w0, (s0, l0, p0) = outs[0]
+        _, d = pairwise_from_scores(prof, case)
+        invisible = [m for m in m0 if all(d[m][x] == 0 and d[x][m] == 0 for x in m0 if x != m)]
         if len(m0) < 2:
             clause = 'star_single_runoff'
         elif boundary:
             clause = 'star_boundary_tie'
+        elif invisible and not set(invisible) & set(cands):
+            clause = 'star_member_dropped'      # a run-off member nobody strictly prefers or disprefers to another member
         else:
             clause = 'star_runoff_pairwise'
         return [(clause, f'run-off {sorted(m0)} path wins {w0}: expected {sorted(s0)} tie {l0}, got {obs}')]
